@@ -176,3 +176,73 @@ func c08EvictChild(ctx *runCtx, spec string) {
 		dropViolations(ctx)
 	}
 }
+
+// ---- child "janitor": every worker has a DMap of its own, so that the fragment of its lock key is empty whenever the
+// lock is free, and the janitor that removes empty fragments runs every 100 us on every member. A lock must survive
+// the janitor: while it is held a competitor never gets it, and the holder's Unlock finds it.
+func c08JanitorChild(ctx *runCtx, spec string) {
+	var n, r, workers, rounds int
+	var seed int64
+	fmt.Sscanf(spec, "janitor N=%d R=%d workers=%d rounds=%d seed=%d", &n, &r, &workers, &rounds, &seed)
+	c, err := cluster.Start(cluster.Config{Replicas: r, Partitions: 7, TableSize: 1 << 16, JanitorInterval: 100 * time.Microsecond}, n)
+	if err != nil {
+		ctx.rep.Inconclusive("cluster start: " + err.Error())
+		return
+	}
+	defer c.Shutdown()
+	fp := c.Fingerprint()
+	kinds := []string{"EO", "EN", "CC", "RO", "RN"}
+	if n == 1 {
+		kinds = []string{"EO", "CC", "RO"}
+	}
+	bg := context.Background()
+	var stop int32
+	var wg sync.WaitGroup
+	for w := 0; w < workers; w++ {
+		wg.Add(1)
+		go func(w int) {
+			defer wg.Done()
+			router := paths.NewRouter(c, fmt.Sprintf("c08j-%d-%d", seed, w))
+			defer router.Close()
+			sess := router.NewSession()
+			defer sess.Close()
+			key := fmt.Sprintf("lk-%d", w)
+			for round := 0; round < rounds && atomic.LoadInt32(&stop) == 0; round++ {
+				hk, ck := kinds[(w+round)%len(kinds)], kinds[(w+round/2+1)%len(kinds)]
+				l, err := sess.Via(hk).Lock(bg, key, 0, 2*time.Second)
+				if err != nil {
+					ctx.rep.Inconclusive(fmt.Sprintf("janitor %s: lock: %v", key, err))
+					return
+				}
+				ctx.rep.Eval(1)
+				ctx.rep.Count("janitor_rounds_holder_via_"+hk, 1)
+				bad := false
+				if lk, err := sess.Via(ck).Lock(bg, key, 0, time.Millisecond); err == nil {
+					ctx.rep.Violate("c08|acquired-while-held|untimed|empty-fragment-janitor",
+						fmt.Sprintf("%s key %s: the lock was taken via %s into a fragment that was empty (janitor every 100us) and not unlocked, yet a competitor via %s acquired it too", spec, key, hk, ck),
+						map[string]interface{}{"batch": spec, "key": key})
+					_ = lk.Unlock(bg)
+					bad = true
+				} else if paths.Class(err) != "lock not acquired" {
+					ctx.rep.Inconclusive(fmt.Sprintf("janitor %s: competitor: %v", key, err))
+					bad = true
+				}
+				if err := l.Unlock(bg); err != nil && !bad {
+					ctx.rep.Violate("c08|unlock-failed|own-token|empty-fragment-janitor|path="+hk,
+						fmt.Sprintf("%s key %s: the holder of a lock taken via %s into an empty fragment (janitor every 100us) could not unlock it: %v", spec, key, hk, err),
+						map[string]interface{}{"batch": spec, "key": key})
+					bad = true
+				}
+				if bad {
+					atomic.StoreInt32(&stop, 1)
+					return
+				}
+			}
+			ctx.rep.Distinct(fmt.Sprintf("janitor|N=%d|R=%d|worker=%d", n, r, w%5))
+		}(w)
+	}
+	wg.Wait()
+	if c.Fingerprint() != fp {
+		dropViolations(ctx)
+	}
+}
